@@ -1382,44 +1382,39 @@ func (m *mergeQuery) Properties() queryProp {
 
 func getHashCode(n NodeNavigator) uint64 {
 	var sb bytes.Buffer
-	switch n.NodeType() {
+	typ := n.NodeType()
+	prefix, name := n.Prefix(), n.LocalName()
+	var value string
+	switch typ {
 	case AttributeNode, TextNode, CommentNode:
-		sb.WriteString(n.LocalName())
-		sb.WriteByte('=')
-		sb.WriteString(n.Value())
-		// https://github.com/antchfx/htmlquery/issues/25
+		value = n.Value()
+	}
+	// The position of the node: its index among its siblings followed by
+	// those of its ancestors up to the root.
+	// https://github.com/antchfx/htmlquery/issues/25
+	for {
 		d := 1
 		for n.MoveToPrevious() {
 			d++
 		}
-		sb.WriteByte('-')
 		sb.WriteString(strconv.Itoa(d))
-		for n.MoveToParent() {
-			d = 1
-			for n.MoveToPrevious() {
-				d++
-			}
-			sb.WriteByte('-')
-			sb.WriteString(strconv.Itoa(d))
-		}
-	case ElementNode:
-		sb.WriteString(n.Prefix() + n.LocalName())
-		d := 1
-		for n.MoveToPrevious() {
-			d++
-		}
 		sb.WriteByte('-')
-		sb.WriteString(strconv.Itoa(d))
-
-		for n.MoveToParent() {
-			d = 1
-			for n.MoveToPrevious() {
-				d++
-			}
-			sb.WriteByte('-')
-			sb.WriteString(strconv.Itoa(d))
+		if !n.MoveToParent() {
+			break
 		}
 	}
+	// The node itself. Names are length-prefixed and the value comes last, so
+	// two different nodes never render to the same key.
+	sb.WriteByte('/')
+	sb.WriteString(strconv.Itoa(int(typ)))
+	sb.WriteByte('/')
+	sb.WriteString(strconv.Itoa(len(prefix)))
+	sb.WriteByte(':')
+	sb.WriteString(prefix)
+	sb.WriteString(strconv.Itoa(len(name)))
+	sb.WriteByte(':')
+	sb.WriteString(name)
+	sb.WriteString(value)
 	h := fnv.New64a()
 	h.Write(sb.Bytes())
 	return h.Sum64()
